@@ -110,3 +110,45 @@
             m.assume_init()
         }
     }
+
+    // ---------------------------------------------------------------- C16.l1.end: exact consumption at the end marker
+    /// The end marker is met with the range decoder in ANY state (range below 2^24 - one more input byte is due - or not):
+    /// read returns the bytes decoded before it, the stream is finished, the range decoder has been normalised (the
+    /// final byte of the LZMA stream is consumed, no byte beyond it), and later reads return Ok(0) without touching the
+    /// source. `first` = bytes decoded in the same call before the marker (0: the marker is the first symbol of the call).
+    fn lzma_end_marker(first: usize) {
+        use crate::decoder::verif_kani::{DEC_CALLS, DEC_BYTES_FIRST};
+        unsafe { DEC_CALLS = 0; DEC_BYTES_FIRST = first; }
+        let range: u32 = vk::any();
+        // range-coder invariant between symbols (C01.rc.step: probabilities stay in [31, 2^11-31]): range >= (2^24 >> 11) * 31 > 2^16,
+        // so one normalisation step brings it back to >= 2^24
+        vk::assume(range >= 1 << 16);
+        // the code value is such that the stream ends cleanly (code == 0 after the final normalisation)
+        let src = vk::Src::<4>::new([0, 0x55, 0x66, 0x77], 4);
+        let mut r = core::mem::ManuallyDrop::new(mk_reader_zeroed(crate::range_dec::verif_kani::mk_decoder(src, range, 0)));
+        r.lz = LZDecoder::new(16, None);
+        r.remaining_size = u64::MAX;
+        r.relaxed_end_cond = false;
+        r.end_reached = false;
+        let mut buf = [0u8; 8];
+        let res = r.read_decode(&mut buf);
+        match res { Ok(n) => assert!(n == first), Err(_) => assert!(false, "clean end marker reported as an error") }
+        if first > 0 { assert!(buf[0] == 0x41); }
+        assert!(r.end_reached);
+        assert!(crate::range_dec::verif_kani::rc_view(&r.rc).0 >= 0x0100_0000, "range decoder not normalised after the end marker: the last byte of the stream was not consumed");
+        let due = if range < 0x0100_0000 { 1 } else { 0 };
+        assert!(crate::range_dec::verif_kani::rc_view(&r.rc).2.pos == due, "bytes consumed at the end marker differ from what the range coder needs");
+        assert!(matches!(r.read_decode(&mut buf), Ok(0)) && crate::range_dec::verif_kani::rc_view(&r.rc).2.pos == due);
+        crate::vcover!(range < 0x0100_0000);
+        crate::vcover!(range >= 0x0100_0000);
+    }
+    #[kani::proof]
+    #[kani::unwind(10)]
+    //@ERR
+    #[kani::stub(crate::decoder::LZMADecoder::decode, crate::decoder::verif_kani::dec_script_stub)]
+    fn c16_lzma_end_marker_first_symbol() { lzma_end_marker(0); }
+    #[kani::proof]
+    #[kani::unwind(10)]
+    //@ERR
+    #[kani::stub(crate::decoder::LZMADecoder::decode, crate::decoder::verif_kani::dec_script_stub)]
+    fn c16_lzma_end_marker_after_bytes() { lzma_end_marker(2); }
